@@ -167,6 +167,12 @@ func syncMethod(info *types.Info, c *ast.CallExpr) (string, ast.Expr, bool) {
 		hook = "RWTryLock"
 	case "RWMutex.TryRLock":
 		hook = "TryRLock"
+	case "Cond.Wait":
+		hook = "CondWait"
+	case "Cond.Signal":
+		hook = "CondSignal"
+	case "Cond.Broadcast":
+		hook = "CondBroadcast"
 	default:
 		return "", nil, false
 	}
@@ -282,6 +288,24 @@ func rewriteFile(p *packages.Package, f *ast.File) bool {
 				changed = true
 				return true
 			}
+			// time.AfterFunc / context.AfterFunc: the function is going to run on a goroutine
+			// the runtime starts; under the simulator it has to be a task.
+			if se, ok := n.Fun.(*ast.SelectorExpr); ok && se.Sel.Name == "AfterFunc" && len(n.Args) == 2 {
+				if fn, ok := info.Uses[se.Sel].(*types.Func); ok && fn.Pkg() != nil {
+					switch fn.Pkg().Path() {
+					case "time":
+						n.Fun = sel("AfterFunc")
+						count("time.AfterFunc")
+						changed = true
+						return true
+					case "context":
+						n.Fun = sel("CtxAfterFunc")
+						count("context.AfterFunc")
+						changed = true
+						return true
+					}
+				}
+			}
 			// An *io.PipeReader / *io.PipeWriter handed to code that sees it as an
 			// interface (io.ReadAll, io.Copy, io.MultiWriter, a registry's PushBlob ...) is
 			// a blocking primitive the rewrite cannot see into: wrap it so that the
@@ -365,7 +389,7 @@ func rewriteFile(p *packages.Package, f *ast.File) bool {
 		case *ast.SelectorExpr:
 			if obj, ok := info.Uses[n.Sel].(*types.TypeName); ok && obj.Pkg() != nil && obj.Pkg().Path() == "sync" {
 				switch obj.Name() {
-				case "Cond", "WaitGroup", "Once", "Locker":
+				case "WaitGroup", "Once", "Locker":
 					uncontrolled(fset, n.Pos(), "sync."+obj.Name())
 				}
 			}
